@@ -144,6 +144,32 @@ func (x *idxLocks) checkGuardedMaps(c *Ctx, r *Report, rule string, which *types
 	}
 }
 
+// checkEscapedMaps: a guarded map obtained through a call (an accessor that returns the map after releasing its lock)
+// cannot be shown to be used under the lock.
+func (x *idxLocks) checkEscapedMaps(c *Ctx, r *Report, rule string) {
+	for _, f := range x.funcs {
+		if x.applyOnly(f) {
+			continue
+		}
+		n := 0
+		for _, op := range mapOpsIn(f) {
+			if want, _ := pairedMutexPath(op.m, x.pairs); want != "" {
+				continue
+			}
+			cl, ok := strip(op.m).(*ssa.Call)
+			if !ok {
+				continue
+			}
+			fld := fieldOfValueDeep(cl)
+			if fld != x.fEdges && fld != x.fVertices {
+				continue
+			}
+			n++
+			r.Bad(rule, fnName(f), fmt.Sprintf("escaped-%s-%s#%d", fld.Name(), op.kind, n), c.InstrPos(op.instr), fmt.Sprintf("%s on a %s map obtained from %s(), which returns the map after releasing its lock: the operation runs unlocked while writers modify the map (fatal error: concurrent map iteration and map write)", op.kind, fld.Name(), callID(&cl.Call).Name))
+		}
+	}
+}
+
 func fieldStoresIn(f *ssa.Function, fld *types.Var) []*ssa.Store {
 	var out []*ssa.Store
 	eachInstr(f, func(i ssa.Instruction) {
@@ -171,6 +197,8 @@ func checkC02(c *Ctx, r *Report, tier string) {
 	x.checkGuardedMaps(c, r, "C02.R1", x.fVertices)
 	c02R2R3R6(c, r, x)
 	c02R4(c, r, x)
+	noMutationBeforeErrorReturn(c, r, "C02.R4")
+	restoreResetsBeforeSuccess(c, r, "C02.R3")
 	c02R5(c, r, x)
 }
 
